@@ -5,7 +5,7 @@
 # exit 0 if at least one named check reports a new violation (the seeded change is caught), 1 otherwise.
 set -u
 V="$(cd "$(dirname "$0")/.." && pwd)"
-patch="$1"; shift
+patch="$(realpath "$1")"; shift
 scr=$(mktemp -d /tmp/vscr.XXXXXX); ev=$(mktemp -d /tmp/vev.XXXXXX)
 trap 'rm -rf "$scr" "$ev"' EXIT
 git -C /repo archive HEAD | tar -x -C "$scr"
